@@ -144,6 +144,7 @@ type State struct {
 	knownTags map[string]int
 	storageFault bool
 	lastCrash map[string]string
+	goArgs [][]specVal // arguments of the go statements executed by the verified function on this path
 	sites  map[string]bool // call sites of the verified function this path returned from normally
 }
 
@@ -173,6 +174,7 @@ func (st *State) clone() *State {
 		Wk:     st.Wk,
 		path:   append([]string(nil), st.path...),
 		sites:  copySites(st.sites),
+		goArgs: append([][]specVal(nil), st.goArgs...),
 		panicking: st.panicking,
 		recovered: st.recovered,
 		rec:    st.rec,
